@@ -392,6 +392,16 @@ def run(ctx, idx):
             v_ = r.value
             if isinstance(v_, ast.Subscript) and K.src(v_.value).replace(" ", "") == "%s.valid_types" % K.self_name(dt) and (val in K.names_in(K.expand(dt, v_.slice)) or val in K.dep_names(dt, v_.slice)):
                 ok = True
+    if not ok:
+        # the table may be re-keyed first (`names = {f(name): t for name, t in self.valid_types.items()}`): same types, names re-spelled
+        for r in rets:
+            v_ = r.value
+            if isinstance(v_, ast.Subscript) and isinstance(v_.value, ast.Name) and (val in K.names_in(K.expand(dt, v_.slice)) or val in K.dep_names(dt, v_.slice)):
+                defs_ = [n.value for n in own_nodes(dt.node) if isinstance(n, ast.Assign) and any(isinstance(t, ast.Name) and t.id == v_.value.id for t in n.targets)]
+                if len(defs_) == 1 and isinstance(defs_[0], ast.DictComp) and K.src(defs_[0].generators[0].iter).replace(" ", "") == "%s.valid_types.items()" % K.self_name(dt) \
+                        and isinstance(defs_[0].generators[0].target, ast.Tuple) and len(defs_[0].generators[0].target.elts) == 2 and isinstance(defs_[0].value, ast.Name) \
+                        and K.src(defs_[0].value) == K.src(defs_[0].generators[0].target.elts[1]) and not defs_[0].generators[0].ifs:
+                    ok = True
     ctx.ob("C20.e", "%s::name-to-type" % dt.key, K.rel(dt), dt.node.lineno, ok, "names map through valid_types[value]" if ok else "a data-type name is not mapped through valid_types[value]")
     # an already-clean value is returned as it is only when it is one of the table's own types: membership in valid_types.values()
     # (or an identity / equality scan of them), not merely "some class"
